@@ -166,6 +166,10 @@ impl<'a, W: io::Write, E: ModelErr> serde::ser::SerializeMap for TokColl<'a, W, 
 // one-token deserializer: hands exactly one value to the visitor
 // -------------------------------------------------------------------------------------------
 
+/// The "document" a parser hands out for a stream that contains no document at all (serde_yaml does
+/// this for the first item of its iterator): it visits `none`.
+pub const VOID: u8 = 0;
+
 pub struct TokDe<E> {
 	pub tok: u8,
 	_e: PhantomData<E>,
@@ -181,6 +185,7 @@ impl<'de, E: ModelErr> serde::Deserializer<'de> for TokDe<E> {
 		unsafe { ghost::DOCS += 1 };
 		match self.tok {
 			b'!' => Err(E::syntax()),
+			VOID => v.visit_none(),
 			b'n' => v.visit_unit(),
 			b't' => v.visit_bool(true),
 			t => v.visit_u8(t),
